@@ -350,7 +350,7 @@ def cone_case(draw, tier="quick"):
     what = draw(st.sampled_from(["cone", "cylinder"]))
     axis = [draw(st.integers(-4, 4)) for _ in range(3)]
     return {"what": what, "v": [draw(C.ints(6)) for _ in range(3)], "axis": axis, "r": draw(st.sampled_from([1, 2, 3, 0.5, 1.5, 0.125, 0.1])), "phi": [draw(st.integers(0, 23)) for _ in range(3)],
-            "t": [draw(st.sampled_from([1, 0.5, 2, -1, -0.5, 1.5])) for _ in range(3)]}
+            "t": [draw(st.sampled_from([1, 0.5, 2, -1, -0.5, 1.5])) for _ in range(3)], "dform": draw(st.sampled_from(["point", "point", "point at infinity", "keywords"]))}
 
 
 def run_cone(c):
@@ -363,7 +363,14 @@ def run_cone(c):
     if what == "cone":
         obj, f = call("Cone", lambda: Cone(P(v), P(v + ax), r))
     else:
-        obj, f = call("Cylinder", lambda: Cylinder(P(v), P(ax), r))
+        dform = c.get("dform", "point")
+        if dform == "point at infinity":
+            # the axis direction as a point at infinity (what Line.direction returns), by any representative
+            obj, f = call("Cylinder(direction at infinity)", lambda: Cylinder(P(v), Point(np.append(ax, 0.0) * (-2.0 if c["phi"][0] % 2 else 1.0)), r))
+        elif dform == "keywords":
+            obj, f = call("Cylinder(keywords)", lambda: Cylinder(center=P(v), direction=P(ax), radius=r))
+        else:
+            obj, f = call("Cylinder", lambda: Cylinder(P(v), P(ax), r))
     if f:
         return [f]
     a = ax / np.linalg.norm(ax)
@@ -405,6 +412,8 @@ def cone_labels(c):
     out = [c["what"], {1: "axis-parallel", 2: "planar-axis", 3: "generic-axis", 0: "zero"}[n]]
     if n == 3:
         out.append("octant:" + "".join("+" if x > 0 else "-" for x in c["axis"]))
+    if c["what"] == "cylinder" and c.get("dform", "point") != "point":
+        out.append("cylinder:direction-as-" + c["dform"].replace(" ", "-"))
     return out
 
 
@@ -416,7 +425,7 @@ LAWS = [
     Law("round", lambda tier: round_case(tier), run_round, lambda c: any(c["c"]), lambda c: [c["what"]] + (["moved-by-a-similarity"] if c.get("moved") else []), {"quick": 1000, "thorough": 20000},
         "Circle / Ellipse / Sphere: locus membership, center, radius, foci, area, volume; also after a similarity (scaling, translation) of the library", shard=300, mandatory=("moved-by-a-similarity",)),
     Law("cone_cylinder", lambda tier: cone_case(tier), run_cone, cone_nontrivial, cone_labels, {"quick": 1200, "thorough": 25000},
-        "Cone / Cylinder contain exactly the parametrised Cartesian locus, axis directions in all octants", shard=300, mandatory=("generic-axis",)),
+        "Cone / Cylinder contain exactly the parametrised Cartesian locus, axis directions in all octants (for cylinders also given as a point at infinity and by keywords)", shard=300, mandatory=("generic-axis", "cylinder:direction-as-point-at-infinity")),
 ]
 
 
